@@ -13,7 +13,7 @@ Definition reserved (s : string) : bool :=
 
 (** identifiers a template may contain besides reserved ones *)
 Definition allowed : list string :=
-  ["impl"; "for"; "where"; "fn"; "match"; "let"; "mut"; "return"; "type"; "const"; "as"; "self"; "Self"; "automatically_derived";
+  ["impl"; "for"; "where"; "fn"; "trait"; "match"; "let"; "mut"; "return"; "type"; "const"; "as"; "self"; "Self"; "automatically_derived";
    "allow"; "clippy"; "double_parens"; "unused_parens"; "core"; "ops"; "cmp"; "hash"; "fmt"; "clone"; "default"; "marker";
    "option"; "convert"; "primitive"; "Fn"; "Sized"; "Eq"; "Ord"; "PartialEq"; "PartialOrd"; "Hash"; "Hasher"; "Clone"; "Copy"; "Debug";
    "Default"; "Deref"; "DerefMut"; "Into"; "PhantomData"; "Option"; "Some"; "Ordering"; "Equal"; "Formatter"; "Result"; "Output"; "Target";
